@@ -187,6 +187,26 @@ func checkC15(t TB, c HistoryCase) c15Outcome {
 				failf(t, P, K, c, "call %d (%s) gives a different result when repeated in the same process", i, s.Label())
 			}
 		}
+		// results are independent objects: a caller that paints over one returned symbol through a mutator the symbol
+		// exposes (QR symbols have an exported Set) must not find its paint in a symbol returned later
+		if _, ok := bc.(interface{ Set(x, y int, val bool) }); ok && err == nil && pv == nil {
+			if scratch, e2, p2 := encodeSpec(s); e2 == nil && p2 == nil && !nilBarcode(scratch) {
+				if m, ok := scratch.(interface{ Set(x, y int, val bool) }); ok {
+					b := scratch.Bounds()
+					try(func() {
+						for k := 0; k < b.Dx(); k++ {
+							m.Set(k, 8%b.Dy(), k%2 == 0)
+							m.Set(8%b.Dx(), k%b.Dy(), k%3 == 0)
+							m.Set(k, k%b.Dy(), true)
+						}
+					})
+				}
+				bc3, err3, pv3 := encodeSpec(s)
+				if fp := enc.Fingerprint(bc3, err3, pv3); fp != inproc[i] {
+					failf(t, P, K, c, "call %d (%s): after the caller changed modules of an earlier result through its Set method, the same call returns a different barcode", i, s.Label())
+				}
+			}
+		}
 		// aliasing probe for the only []byte entry point
 		if s.Fam == "aztec" && err == nil && pv == nil && len(s.Content) > 0 {
 			o.aliasing++
@@ -358,6 +378,9 @@ func genHistory(t *rapid.T) HistoryCase {
 		k := rapid.IntRange(0, len(c.Calls)-1).Draw(t, "relof")
 		r := relativeOf(t, c.Calls[k])
 		at := k + rapid.IntRange(0, 1).Draw(t, "relafter")
+		if len(r.Content) < len(c.Calls[k].Content) && r.Fam == c.Calls[k].Fam {
+			at = k // a prefix goes immediately before the call that extends it
+		}
 		c.Calls = append(c.Calls[:at], append([]EncSpec{r}, c.Calls[at:]...)...)
 	}
 	if rapid.IntRange(0, 3).Draw(t, "repeat") == 0 && len(c.Calls) > 1 {
@@ -383,7 +406,24 @@ func genHistory(t *rapid.T) HistoryCase {
 func relativeOf(t *rapid.T, s EncSpec) EncSpec {
 	r := s
 	r.Content = append(BStr(nil), s.Content...)
-	kind := rapid.IntRange(0, 4).Draw(t, "relkind")
+	kind := rapid.IntRange(0, 6).Draw(t, "relkind")
+	if kind >= 5 && len(s.Content) >= 2 {
+		// a proper prefix (the call is then an extension of its relative: resumable / incremental computations), cut
+		// anywhere, also in the middle of a two-character code or a multi-byte rune
+		cut := rapid.IntRange(1, len(s.Content)-1).Draw(t, "relcut")
+		if rapid.Bool().Draw(t, "paircut") { // prefer a cut inside a two-character code (". " ", " ": " CR LF) or a digit pair
+			for i := 0; i+1 < len(s.Content); i++ {
+				j := (cut + i) % (len(s.Content) - 1)
+				a, b := s.Content[j], s.Content[j+1]
+				if (b == ' ' && (a == '.' || a == ',' || a == ':')) || (a == '\r' && b == '\n') || (a >= '0' && a <= '9' && b >= '0' && b <= '9') {
+					cut = j + 1
+					break
+				}
+			}
+		}
+		r.Content = r.Content[:cut]
+		return r
+	}
 	if kind <= 1 { // one parameter changed
 		switch s.Fam {
 		case "qr":
@@ -541,6 +581,42 @@ func TestC15Orders(t *testing.T) {
 		for _, q := range h.Calls {
 			c.Calls = append(c.Calls, EncSpec{Fam: "qr", Content: q.Content, A: q.Level, B: q.Mode})
 		}
+		picked = append(picked, c)
+	}
+	// twins of intermediate representations (QR codeword streams with equal 32-bit digests) as two-call histories
+	for _, vl := range [][2]int{{2, 1}, {5, 2}} {
+		for _, p := range qrStreamTwins(vl[0], vl[1], 1) {
+			var c HistoryCase
+			for _, content := range [][]byte{p.A, p.B} {
+				c.Calls = append(c.Calls, EncSpec{Fam: "qr", Content: BStr(content), A: vl[1], B: 0})
+			}
+			picked = append(picked, c)
+		}
+	}
+	// a call right after a call whose content is a proper prefix of its own, the cut going through a multi-character
+	// unit of the symbology (two-character Aztec codes, digit pairs and triples, the 13-digit numeric threshold of
+	// PDF417, Code 128 code-set-C runs, full-ASCII shift pairs): incremental / resumable computations
+	for _, pe := range []struct {
+		fam    string
+		a, b   int
+		f1, f2 bool
+		pre    string
+		ext    string
+	}{
+		{"aztec", 23, 0, false, false, "HELLO.", " WORLD"}, {"aztec", 23, 0, false, false, "line one\r", "\nline two"}, {"aztec", 33, 0, false, false, "A,", " B, C"},
+		{"aztec", 10, 2, false, false, "12:", " 30: 45"}, {"aztec", 23, 0, false, false, "abc", "DEF"}, {"aztec", 23, 0, false, false, "99", "9.9"}, {"aztec", 0, 0, false, false, "\x80\x81", "\x82 end"},
+		{"pdf417", 2, 0, false, false, "ABC 123456789012", "3 tail"}, {"pdf417", 0, 0, false, false, "abc\xc8\xc9\xca\xcb\xcc", "\xcd"}, {"pdf417", 4, 0, false, false, "Text;", " more"},
+		{"code128", 0, 0, false, false, "A1", "234"}, {"code128", 0, 0, false, false, "A123", "4"}, {"code128", 0, 0, false, false, "ab\x01", "\x02c"}, {"code128nc", 0, 0, false, false, "12ñ3", "4"},
+		{"qr", 1, 0, false, false, "12", "3"}, {"qr", 2, 0, false, false, "HELLO WORL", "D"}, {"qr", 0, 0, false, false, "1234567", "a"}, {"qr", 3, 2, false, false, "AB", "C"},
+		{"datamatrix", 0, 0, false, false, "1", "2"}, {"datamatrix", 0, 0, false, false, "AB1", "2C"}, {"datamatrix", 0, 0, false, false, "x\x80", "\x81"},
+		{"code39", 0, 0, true, true, "a", "b"}, {"code39", 0, 0, false, true, "A+", "B"}, {"code93", 0, 0, true, true, "a", "B"}, {"code93", 0, 0, true, false, "A", "B"},
+		{"codabar", 0, 0, false, false, "A1B", ""}, {"2of5", 0, 0, false, false, "12", "3"}, {"itf", 0, 0, false, false, "12", "34"}, {"ean", 0, 0, false, false, "1234567", "01234"},
+	} {
+		if pe.ext == "" {
+			continue
+		}
+		var c HistoryCase
+		c.Calls = append(c.Calls, EncSpec{Fam: pe.fam, Content: BStr(pe.pre), A: pe.a, B: pe.b, F1: pe.f1, F2: pe.f2}, EncSpec{Fam: pe.fam, Content: BStr(pe.pre + pe.ext), A: pe.a, B: pe.b, F1: pe.f1, F2: pe.f2})
 		picked = append(picked, c)
 	}
 	parallelFor(len(picked), 8, func(i int) {
